@@ -121,7 +121,7 @@ Section Tune.
     | OpCutoff.
   Inductive answer :=
     | ASeries (y : ydata) | ACutoff (c : Z) | ADone
-    | ANotFitted.                      (* NotFittedError (predict / update); None for .cutoff *)
+    | ANotFitted.                      (* NotFittedError (predict / update / cutoff) *)
 
   Definition op_call (o : op) : list (call XV) :=
     match o with OpPredict f x => [Predict f x] | OpUpdate y x => [Update y x] | OpCutoff => [] end.
